@@ -55,6 +55,25 @@ pub struct RunOut {
     pub line: String,
 }
 
+/// after a run that did not complete (runtime error, step limit) the stacks still hold that run's frames, input values and
+/// operands; a host starting another execution in the same object begins from clean stacks, so the harness restores the
+/// depths the run started with (used by MULTI, where several programs are run in one object)
+fn unwind<D: Store>(d: &mut D, raw_regs0: usize, vals0: usize, frames0: usize) {
+    let mut guard = 0;
+    while d.get_register_len() > raw_regs0 && guard < 100000 {
+        let _ = d.pop_register();
+        guard += 1;
+    }
+    while d.frame_depth() > frames0 && d.frame_depth() != usize::MAX && guard < 200000 {
+        if d.pop_frame().is_err() { break; }
+        guard += 1;
+    }
+    while d.value_stack_len() > vals0 && d.value_stack_len() != usize::MAX && guard < 300000 {
+        if d.pop_value_stack().is_none() { break; }
+        guard += 1;
+    }
+}
+
 thread_local! {
     /// distinct (pc, frame-relative operand depth) pairs observed by the last `execute` (for the DEPTH suite)
     pub static LAST_OBS: std::cell::RefCell<Vec<(usize, i64)>> = std::cell::RefCell::new(Vec::new());
@@ -72,6 +91,7 @@ pub fn execute<D: Store>(d: &mut D, entry_jump: usize, input: usize) -> String {
     let regs0 = d.operands().len();
     let vals0 = d.value_stack_len();
     let frames0 = d.frame_depth();
+    let raw_regs0 = d.get_register_len();
     if d.push_value_stack(input).is_err() {
         return "runerr@0 push-input".to_string();
     }
@@ -118,7 +138,9 @@ pub fn execute<D: Store>(d: &mut D, entry_jump: usize, input: usize) -> String {
                     None => e.get_message().clone(),
                 };
                 let msg: String = msg.chars().filter(|c| *c != '\n' && *c != '\t').take(120).collect();
-                return format!("runerr@{} {:?} depth={} log={} msg={}", steps, e.get_type(), depth_note, d.host_log().join(";"), msg);
+                let out = format!("runerr@{} {:?} depth={} log={} msg={}", steps, e.get_type(), depth_note, d.host_log().join(";"), msg);
+                unwind(d, raw_regs0, vals0, frames0);
+                return out;
             }
             Ok(info) => {
                 let f_after = d.frame_depth();
@@ -135,7 +157,9 @@ pub fn execute<D: Store>(d: &mut D, entry_jump: usize, input: usize) -> String {
             }
         }
         if steps >= STEP_LIMIT {
-            return format!("steplimit depth={} log={}", depth_note, d.host_log().join(";"));
+            let out = format!("steplimit depth={} log={}", depth_note, d.host_log().join(";"));
+            unwind(d, raw_regs0, vals0, frames0);
+            return out;
         }
     }
     let value = match d.get_current_value() {
